@@ -12,6 +12,7 @@ import (
 	"cosmossdk.io/math"
 
 	sdk "github.com/cosmos/cosmos-sdk/types"
+	stakingkeeper "github.com/cosmos/cosmos-sdk/x/staking/keeper"
 	stakingtypes "github.com/cosmos/cosmos-sdk/x/staking/types"
 )
 
@@ -22,6 +23,7 @@ import (
 //   E id:status:category:slash:feeTotal:reporter:power:height:open:<escrow total>:<deleg.val.amount+…>   every dispute
 func init() {
 	register(&Family{Name: "slash", Gen: genSlashHist, Run: runSlashHist})
+	register(&Family{Name: "ledgerslash", Gen: genSlashHist, Run: runSlashHist}) // C05: the same histories, ledger monitors
 }
 
 func dumpSlash(c *Chain) []string {
@@ -57,9 +59,20 @@ func dumpSlash(c *Chain) []string {
 			notBondedTok = notBondedTok.Add(v.Tokens)
 		}
 	}
+	// the staking module's own invariants (cosmos-sdk x/staking/keeper/invariants.go) on the committed state
+	inv := "ok"
+	for name, f := range map[string]sdk.Invariant{
+		"nonnegative-power":   stakingkeeper.NonNegativePowerInvariant(c.App.StakingKeeper),
+		"positive-delegation": stakingkeeper.PositiveDelegationInvariant(c.App.StakingKeeper),
+		"delegator-shares":    stakingkeeper.DelegatorSharesInvariant(c.App.StakingKeeper),
+	} {
+		if _, broken := f(ctx); broken {
+			inv = "broken-" + name
+		}
+	}
 	out := []string{"U " + strings.Join(us, ","),
-		fmt.Sprintf("P bonded=%s notbonded=%s dispute=%s valtokens=%s/%s ubd=%s", c.ModBal(stakingtypes.BondedPoolName), c.ModBal(stakingtypes.NotBondedPoolName),
-			c.ModBal("dispute"), bondedTok, notBondedTok, ubdSum)}
+		fmt.Sprintf("P bonded=%s notbonded=%s dispute=%s valtokens=%s/%s ubd=%s inv=%s ndel=%d", c.ModBal(stakingtypes.BondedPoolName), c.ModBal(stakingtypes.NotBondedPoolName),
+			c.ModBal("dispute"), bondedTok, notBondedTok, ubdSum, inv, ndel(c))}
 	var es []string
 	if it, err := c.App.DisputeKeeper.Disputes.Iterate(ctx, nil); err == nil {
 		for ; it.Valid(); it.Next() {
@@ -85,6 +98,14 @@ func dumpSlash(c *Chain) []string {
 	}
 	out = append(out, "E "+strings.Join(es, ","))
 	return out
+}
+
+func ndel(c *Chain) int {
+	ds, err := c.App.StakingKeeper.GetAllDelegations(c.Ctx())
+	if err != nil {
+		return 0
+	}
+	return len(ds)
 }
 
 func runSlashHist(t *testing.T, in []string) string {
